@@ -120,6 +120,43 @@ impl<'s> Semantics<'s> {
         Ok(())
     }
 
+    /// The shift/rotate count as the processor uses it: masked to 6 bits for 64-bit
+    /// operands and to 5 bits otherwise, brought to the width of the shifted operand.
+    pub fn masked_count(&self, bits: usize, count: Expression) -> Result<Expression, Error> {
+        let mask = if bits == 64 { 0x3f } else { 0x1f };
+        let count = Expr::and(count.clone(), expr_const(mask, count.bits()))?;
+        if count.bits() < bits {
+            Expr::zext(bits, count)
+        } else if count.bits() > bits {
+            Expr::trun(bits, count)
+        } else {
+            Ok(count)
+        }
+    }
+
+    /// Assigns `value` to the flag unless the (masked) count is zero, in which case the
+    /// flag keeps its value: shifts and rotates by zero leave all flags unchanged.
+    pub fn set_flag_unless_zero_count(
+        &self,
+        block: &mut Block,
+        flag: &str,
+        count: &Expression,
+        value: Expression,
+    ) -> Result<(), Error> {
+        let zero = Expr::cmpeq(count.clone(), expr_const(0, count.bits()))?;
+        block.assign(
+            scalar(flag, 1),
+            Expr::ite(zero, expr_scalar(flag, 1), value)?,
+        );
+        Ok(())
+    }
+
+    /// Most significant bit of an expression, as a 1-bit expression.
+    pub fn msb(&self, expr: Expression) -> Result<Expression, Error> {
+        let bits = expr.bits();
+        Expr::trun(1, Expr::shr(expr, expr_const(bits as u64 - 1, bits))?)
+    }
+
     /// Returns a condition which is true if a conditional instruction should be
     /// executed. Used for setcc, jcc and cmovcc.
     pub fn cc_condition(&self) -> Result<Expression, Error> {
@@ -3300,59 +3337,28 @@ impl<'s> Semantics<'s> {
             // get operands
             let lhs = self.operand_load(block, &detail.operands[0])?;
             let count = self.operand_load(block, &detail.operands[1])?;
-
-            let mut count = match lhs.bits() {
-                8 => Expr::and(count.clone(), expr_const(0x7, count.bits()))?,
-                16 => Expr::and(count.clone(), expr_const(0xf, count.bits()))?,
-                32 => Expr::and(count.clone(), expr_const(0x1f, count.bits()))?,
-                64 => Expr::and(count.clone(), expr_const(0x3f, count.bits()))?,
-                _ => {
-                    return Err(Error::Custom(format!(
-                        "Unsupported rol bits {}",
-                        count.bits()
-                    )))
-                }
-            };
-
-            if count.bits() < lhs.bits() {
-                count = Expr::zext(lhs.bits(), count)?;
+            let bits = lhs.bits();
+            if bits != 8 && bits != 16 && bits != 32 && bits != 64 {
+                return Err(Error::Custom(format!("Unsupported rol bits {}", bits)));
             }
 
-            let shift_left_bits = count;
-            let shift_right_bits = Expr::sub(
-                expr_const(lhs.bits() as u64, lhs.bits()),
-                shift_left_bits.clone(),
-            )?;
+            // the count is masked to 5 (6) bits; a zero masked count changes no flag.
+            // The rotation itself is by the masked count modulo the operand size.
+            let count = self.masked_count(bits, count)?;
+            let rotate = Expr::and(count.clone(), expr_const(bits as u64 - 1, bits))?;
+            let other = Expr::sub(expr_const(bits as u64, bits), rotate.clone())?;
 
             let result = Expr::or(
-                Expr::shl(lhs.clone(), shift_left_bits)?,
-                Expr::shr(lhs, shift_right_bits)?,
+                Expr::shl(lhs.clone(), rotate)?,
+                Expr::shr(lhs, other)?,
             )?;
 
-            // CF is the bit sent from one end to the other. In our case, it should be LSB of result
-            block.assign(scalar("CF", 1), Expr::trun(1, result.clone())?);
-
-            // OF is XOR of two most-significant bits of result
-            block.assign(
-                scalar("OF", 1),
-                Expr::xor(
-                    Expr::trun(
-                        1,
-                        Expr::shr(
-                            result.clone(),
-                            expr_const(result.bits() as u64 - 1, result.bits()),
-                        )?,
-                    )?,
-                    Expr::trun(
-                        1,
-                        Expr::shr(
-                            result.clone(),
-                            expr_const(result.bits() as u64 - 2, result.bits()),
-                        )?,
-                    )?,
-                )?,
-            );
-
+            // CF is the bit sent from one end to the other: the LSB of the result
+            let cf = Expr::trun(1, result.clone())?;
+            self.set_flag_unless_zero_count(block, "CF", &count, cf.clone())?;
+            // OF (count == 1): MSB(result) XOR CF
+            let of = Expr::xor(self.msb(result.clone())?, cf)?;
+            self.set_flag_unless_zero_count(block, "OF", &count, of)?;
             // SF/ZF are unaffected
 
             self.operand_store(block, &detail.operands[0], result)?;
@@ -3375,71 +3381,34 @@ impl<'s> Semantics<'s> {
             // get operands
             let lhs = self.operand_load(block, &detail.operands[0])?;
             let count = self.operand_load(block, &detail.operands[1])?;
-
-            let mut count = match lhs.bits() {
-                8 => Expr::and(count.clone(), expr_const(0x7, count.bits()))?,
-                16 => Expr::and(count.clone(), expr_const(0xf, count.bits()))?,
-                32 => Expr::and(count.clone(), expr_const(0x1f, count.bits()))?,
-                64 => Expr::and(count.clone(), expr_const(0x3f, count.bits()))?,
-                _ => {
-                    return Err(Error::Custom(format!(
-                        "Unsupported ror bits {}",
-                        count.bits()
-                    )))
-                }
-            };
-
-            if count.bits() < lhs.bits() {
-                count = Expr::zext(lhs.bits(), count)?;
+            let bits = lhs.bits();
+            if bits != 8 && bits != 16 && bits != 32 && bits != 64 {
+                return Err(Error::Custom(format!("Unsupported ror bits {}", bits)));
             }
 
-            let shift_right_bits = count;
-            let shift_left_bits = Expr::sub(
-                expr_const(lhs.bits() as u64, lhs.bits()),
-                shift_right_bits.clone(),
-            )?;
+            // the count is masked to 5 (6) bits; a zero masked count changes no flag.
+            // The rotation itself is by the masked count modulo the operand size.
+            let count = self.masked_count(bits, count)?;
+            let rotate = Expr::and(count.clone(), expr_const(bits as u64 - 1, bits))?;
+            let other = Expr::sub(expr_const(bits as u64, bits), rotate.clone())?;
 
             let result = Expr::or(
-                Expr::shl(lhs.clone(), shift_left_bits)?,
-                Expr::shr(lhs, shift_right_bits)?,
+                Expr::shr(lhs.clone(), rotate)?,
+                Expr::shl(lhs, other)?,
             )?;
 
-            // CF is the bit sent from one end to the other. In our case, it should be MSB of result
-            block.assign(
-                scalar("CF", 1),
-                Expr::trun(
-                    1,
-                    Expr::shr(
-                        result.clone(),
-                        expr_const(result.bits() as u64 - 1, result.bits()),
-                    )?,
-                )?,
-            );
-
-            // OF is XOR of two most-significant bits of result
-            block.assign(
-                scalar("OF", 1),
-                Expr::xor(
-                    Expr::trun(
-                        1,
-                        Expr::shr(
-                            result.clone(),
-                            expr_const(result.bits() as u64 - 1, result.bits()),
-                        )?,
-                    )?,
-                    Expr::trun(
-                        1,
-                        Expr::shr(
-                            result.clone(),
-                            expr_const(result.bits() as u64 - 2, result.bits()),
-                        )?,
-                    )?,
-                )?,
-            );
-
+            // CF is the bit sent from one end to the other: the MSB of the result
+            let cf = self.msb(result.clone())?;
+            self.set_flag_unless_zero_count(block, "CF", &count, cf.clone())?;
+            // OF (count == 1): XOR of the two most significant bits of the result
+            let second = Expr::trun(
+                1,
+                Expr::shr(result.clone(), expr_const(bits as u64 - 2, bits))?,
+            )?;
+            let of = Expr::xor(cf, second)?;
+            self.set_flag_unless_zero_count(block, "OF", &count, of)?;
             // SF/ZF are unaffected
 
-            // store result
             self.operand_store(block, &detail.operands[0], result)?;
 
             block.index()
@@ -3486,35 +3455,29 @@ impl<'s> Semantics<'s> {
 
             // get operands
             let lhs = self.operand_load(block, &detail.operands[0])?;
-            let mut rhs = self.operand_load(block, &detail.operands[1])?;
+            let rhs = self.operand_load(block, &detail.operands[1])?;
+            // the count is masked to 5 (6) bits; a zero count changes no flag
+            let rhs = self.masked_count(lhs.bits(), rhs)?;
 
-            if lhs.bits() != rhs.bits() {
-                rhs = Expr::zext(lhs.bits(), rhs)?;
-            }
-
-            // Do the SAR
             let expr = Expr::ashr(lhs.clone(), rhs.clone())?;
 
             // CF is the last bit shifted out
-            // This will give us a bit mask if rhs is not equal to zero
-            let non_zero_mask = Expr::sub(
-                expr_const(0, rhs.bits()),
-                Expr::zext(
-                    rhs.bits(),
-                    Expr::cmpneq(rhs.clone(), expr_const(0, rhs.bits()))?,
+            // shift lhs right (arithmetically) by (count - 1): the last bit shifted out is then the LSB
+            let cf = Expr::trun(
+                1,
+                Expr::ashr(
+                    lhs.clone(),
+                    Expr::sub(rhs.clone(), expr_const(1, rhs.bits()))?,
                 )?,
             )?;
-            // This shifts lhs right by (rhs - 1)
-            let cf = Expr::shr(lhs, Expr::sub(rhs.clone(), expr_const(1, rhs.bits()))?)?;
-            // Apply mask
-            let cf = Expr::trun(1, Expr::and(cf, non_zero_mask)?)?;
-            block.assign(scalar("CF", 1), cf);
-
-            // OF is the last bit shifted out
-            block.assign(scalar("OF", 1), expr_const(0, 1));
-
-            self.set_zf(block, expr.clone())?;
-            self.set_sf(block, expr.clone())?;
+            self.set_flag_unless_zero_count(block, "CF", &rhs, cf.clone())?;
+            // OF (count == 1): cleared
+            let of = expr_const(0, 1);
+            self.set_flag_unless_zero_count(block, "OF", &rhs, of)?;
+            let zf = Expr::cmpeq(expr.clone(), expr_const(0, expr.bits()))?;
+            self.set_flag_unless_zero_count(block, "ZF", &rhs, zf)?;
+            let sf = self.msb(expr.clone())?;
+            self.set_flag_unless_zero_count(block, "SF", &rhs, sf)?;
 
             self.operand_store(block, &detail.operands[0], expr)?;
 
@@ -3735,46 +3698,26 @@ impl<'s> Semantics<'s> {
 
             // get operands
             let lhs = self.operand_load(block, &detail.operands[0])?;
-            let mut rhs = self.operand_load(block, &detail.operands[1])?;
+            let rhs = self.operand_load(block, &detail.operands[1])?;
+            // the count is masked to 5 (6) bits; a zero count changes no flag
+            let rhs = self.masked_count(lhs.bits(), rhs)?;
 
-            if lhs.bits() != rhs.bits() {
-                rhs = Expr::zext(lhs.bits(), rhs)?;
-            }
-
-            // Do the SHL
             let expr = Expr::shl(lhs.clone(), rhs.clone())?;
 
             // CF is the last bit shifted out
-            // This will give us a bit mask if rhs is not equal to zero
-            let non_zero_mask = Expr::sub(
-                expr_const(0, rhs.bits()),
-                Expr::zext(
-                    rhs.bits(),
-                    Expr::cmpneq(rhs.clone(), expr_const(0, rhs.bits()))?,
-                )?,
-            )?;
-            // Shift lhs left by (rhs - 1), putting the last-shifted-out bit at the MSB
-            let cf = Expr::shl(lhs, Expr::sub(rhs.clone(), expr_const(1, rhs.bits()))?)?;
-            // Extract MSB (shift right by bits-1), then apply non-zero mask
-            let cf = Expr::shr(cf.clone(), expr_const(cf.bits() as u64 - 1, cf.bits()))?;
-            let cf = Expr::trun(1, Expr::and(cf, non_zero_mask)?)?;
-            block.assign(scalar("CF", 1), cf.clone());
-
-            // OF (count==1): OF = MSB(result) XOR CF
-            let of = Expr::xor(
-                cf,
-                Expr::trun(
-                    1,
-                    Expr::shr(
-                        expr.clone(),
-                        expr_const(expr.bits() as u64 - 1, expr.bits()),
-                    )?,
-                )?,
-            )?;
-            block.assign(scalar("OF", 1), of);
-
-            self.set_zf(block, expr.clone())?;
-            self.set_sf(block, expr.clone())?;
+            // shift lhs left by (count - 1): the last bit shifted out is then the MSB
+            let cf = self.msb(Expr::shl(
+                lhs.clone(),
+                Expr::sub(rhs.clone(), expr_const(1, rhs.bits()))?,
+            )?)?;
+            self.set_flag_unless_zero_count(block, "CF", &rhs, cf.clone())?;
+            // OF (count == 1): MSB(result) XOR CF
+            let of = Expr::xor(cf.clone(), self.msb(expr.clone())?)?;
+            self.set_flag_unless_zero_count(block, "OF", &rhs, of)?;
+            let zf = Expr::cmpeq(expr.clone(), expr_const(0, expr.bits()))?;
+            self.set_flag_unless_zero_count(block, "ZF", &rhs, zf)?;
+            let sf = self.msb(expr.clone())?;
+            self.set_flag_unless_zero_count(block, "SF", &rhs, sf)?;
 
             self.operand_store(block, &detail.operands[0], expr)?;
 
@@ -3795,44 +3738,29 @@ impl<'s> Semantics<'s> {
 
             // get operands
             let lhs = self.operand_load(block, &detail.operands[0])?;
-            let mut rhs = self.operand_load(block, &detail.operands[1])?;
+            let rhs = self.operand_load(block, &detail.operands[1])?;
+            // the count is masked to 5 (6) bits; a zero count changes no flag
+            let rhs = self.masked_count(lhs.bits(), rhs)?;
 
-            if lhs.bits() != rhs.bits() {
-                rhs = Expr::zext(lhs.bits(), rhs)?;
-            }
-
-            // Do the SHR
             let expr = Expr::shr(lhs.clone(), rhs.clone())?;
 
             // CF is the last bit shifted out
-            // This will give us a bit mask if rhs is not equal to zero
-            let non_zero_mask = Expr::sub(
-                expr_const(0, rhs.bits()),
-                Expr::zext(
-                    rhs.bits(),
-                    Expr::cmpneq(rhs.clone(), expr_const(0, rhs.bits()))?,
+            // shift lhs right by (count - 1): the last bit shifted out is then the LSB
+            let cf = Expr::trun(
+                1,
+                Expr::shr(
+                    lhs.clone(),
+                    Expr::sub(rhs.clone(), expr_const(1, rhs.bits()))?,
                 )?,
             )?;
-            // This shifts lhs right by (rhs - 1)
-            let cf = Expr::shr(
-                lhs.clone(),
-                Expr::sub(rhs.clone(), expr_const(1, rhs.bits()))?,
-            )?;
-            // Apply mask
-            let cf = Expr::trun(1, Expr::and(cf, non_zero_mask)?)?;
-            block.assign(scalar("CF", 1), cf);
-
-            // OF set to most significant bit of the original operand
-            block.assign(
-                scalar("OF", 1),
-                Expr::trun(
-                    1,
-                    Expr::shr(lhs.clone(), expr_const(lhs.bits() as u64 - 1, lhs.bits()))?,
-                )?,
-            );
-
-            self.set_zf(block, expr.clone())?;
-            self.set_sf(block, expr.clone())?;
+            self.set_flag_unless_zero_count(block, "CF", &rhs, cf.clone())?;
+            // OF (count == 1): most significant bit of the original operand
+            let of = self.msb(lhs.clone())?;
+            self.set_flag_unless_zero_count(block, "OF", &rhs, of)?;
+            let zf = Expr::cmpeq(expr.clone(), expr_const(0, expr.bits()))?;
+            self.set_flag_unless_zero_count(block, "ZF", &rhs, zf)?;
+            let sf = self.msb(expr.clone())?;
+            self.set_flag_unless_zero_count(block, "SF", &rhs, sf)?;
 
             self.operand_store(block, &detail.operands[0], expr)?;
 
